@@ -10,5 +10,4 @@ python3 tools/kernel_abi.py .work/kernel.json .work/kprobe
 python3 tools/gen_lean.py .work/facts.json .work/kernel.json lean/Fbr/Gen
 python3 tools/gen_probe.py .work/facts.json harness/src/gen_layout.rs
 (cd lean && lake build)
-cp /repo/Cargo.lock harness/Cargo.lock 2>/dev/null || true
 (cd harness && cargo build --offline --bins)
